@@ -11,8 +11,7 @@ Lemma exec_sound n :
 Proof.
   induction n as [|n [IHs IHb]]; split; intros x s d tr o s' d' H [Ho Hs]; simpl in H;
     try (injection H as _ <- _ _; congruence).
-  - destruct x as [l|f v|c b1 b2|c body orelse| | |l|tb th te tf|wl wb|rl];
-      try (injection H as _ <- _ _; congruence).
+  - destruct x as [l|f v|c b1 b2|c body orelse| | |l|tb th te tf|wl wb|rl].
     + injection H as <- <- <- <-; constructor.
     + injection H as <- <- <- <-; constructor.
     + destruct (ceval c s d) as [[v tc] d1] eqn:Ec.
@@ -36,6 +35,38 @@ Proof.
     + injection H as <- <- <- <-; constructor.
     + injection H as <- <- <- <-; constructor.
     + injection H as <- <- <- <-; constructor.
+    + (* STry *)
+      destruct (exec_block n tb s d) as [[[tr1 ob] s1] d1] eqn:E1.
+      assert (D : ob = ONormal \/ ob <> ONormal) by (destruct ob; auto; right; discriminate).
+      destruct D as [-> | Nb].
+      * destruct (exec_block n te s1 d1) as [[[tr2 o2] s2] d2] eqn:E2.
+        destruct o2; try (injection H as _ <- _ _; congruence);
+          (destruct (exec_block n tf s2 d2) as [[[tr3 of] s3] d3] eqn:E3;
+           destruct of; try (injection H as _ <- _ _; congruence);
+           injection H as <- <- <- <-;
+           eapply RTryN; [apply IHb; [exact E1 | split; discriminate] | apply IHb; [exact E2 | split; discriminate]
+                         | apply IHb; [exact E3 | split; discriminate]]).
+      * assert (E2 : (let '(tr2, o2, s2, d2) := match ob with ONormal => exec_block n te s1 d1 | _ => ([], ob, s1, d1) end in
+                      match o2 with
+                      | OFuel | OStuck => (tr1 ++ tr2, o2, s2, d2)
+                      | _ => let '(tr3, of, s3, d3) := exec_block n tf s2 d2 in
+                             match of with
+                             | ONormal => (tr1 ++ tr2 ++ tr3, o2, s3, d3)
+                             | OFuel => (tr1 ++ tr2 ++ tr3, OFuel, s3, d3)
+                             | _ => (tr1 ++ tr2 ++ tr3, OStuck, s3, d3)
+                             end
+                      end) = (tr, o, s', d')) by exact H.
+        clear H. destruct ob; try congruence;
+          try (simpl in E2; injection E2 as _ <- _ _; congruence);
+          (simpl in E2; destruct (exec_block n tf s1 d1) as [[[tr3 of] s3] d3] eqn:E3;
+           destruct of; try (injection E2 as _ <- _ _; congruence);
+           injection E2 as <- <- <- <-;
+           eapply RTryJ; [apply IHb; [exact E1 | split; discriminate] | discriminate
+                         | apply IHb; [exact E3 | split; discriminate]]).
+    + (* SWith *)
+      destruct (exec_block n wb s d) as [[[trb ob] sb] db] eqn:Eb. injection H as <- <- <- <-.
+      apply RWith. apply IHb; [exact Eb | split; assumption].
+    + injection H as _ <- _ _; congruence.
   - destruct x as [|st r].
     + injection H as <- <- <- <-; constructor.
     + destruct (exec_stmt n st s d) as [[[tr1 o1] s1] d1] eqn:E1.
